@@ -198,6 +198,9 @@ func runCheck(o *checkOpts) int {
 			Pos: fmt.Sprintf("%s:%d", or.c.File, or.c.Line),
 			Model: fmt.Sprintf("no function %s in %s: the %d ensures / %d site clauses of its contract cannot be checked", or.c.Func, or.pkg, len(or.c.Ensures), len(or.c.Asserts))})
 	}
+	if o.funcs == "" {
+		obls = append(obls, eng.layoutObligations(props)...)
+	}
 	lemObls, lerr := eng.lemmaObligations(props)
 	if lerr != nil {
 		fmt.Printf("ENGINE-ERROR %v\n", lerr)
